@@ -4,12 +4,13 @@
 (* from it in exactly one header field), families of matches derived from a  *)
 (* shape (all 2^10 flag sets, prefix-length grids, garbage in ignored        *)
 (* fields), and small tables with mixed exact / wildcard entries.            *)
-(* The base shape and the family of a run are selected with the environment  *)
-(* variables C03_BASE / C03_FAM (props/C03.py), everything else by the cfg.  *)
+(* The base shapes (one catalog each) and the family of a run are selected   *)
+(* with the environment variables C03_GRP / C03_FAM (props/C03.py),          *)
+(* everything else by the cfg.                                               *)
 EXTENDS Lookup, IOUtils
 
 EnvOr(name, dflt) == IF name \in DOMAIN IOEnv THEN IOEnv[name] ELSE dflt
-BaseName == EnvOr("C03_BASE", "tcp")
+GrpSel   == EnvOr("C03_GRP", "tcp")
 FamName  == EnvOr("C03_FAM", "single")
 
 SIP == <<202, 85, 170, 91>>
@@ -56,7 +57,18 @@ Shape(s) ==
     [] s = "vsnap"    -> Tag([ARP EXCEPT !.l2 = "snap0"], 7, 1)
     [] s = "qinq"     -> Tag([NB EXCEPT !.etype = 33024], 0, 3)      \* inner type 0x8100
 AllShapes == [i \in 1..Len(ShapeNames) |-> Shape(ShapeNames[i])]
-Base == Shape(BaseName)
+AllNames == {ShapeNames[i] : i \in DOMAIN ShapeNames}
+\* shapes whose matches have network fields that take part
+NwNames  == {"tcp", "udp", "icmp", "gre", "tcpopt", "tcpecn", "frag1", "frag2", "fraglast", "vtcp",
+             "v0udp", "arpreq", "arprep", "arphi", "varp", "snapip", "snaparp", "vsnap"}
+Q12      == {"tcp", "icmp", "frag2", "vtcp", "arpreq", "arphi", "other", "llc", "snapip", "vsnap",
+             "vllc", "qinq"}
+GroupsRows == CASE GrpSel = "all" -> AllNames
+                [] GrpSel = "nw"  -> NwNames
+                [] GrpSel = "q12" -> Q12
+                [] GrpSel = "rest" -> AllNames \ Q12
+                [] GrpSel = "q3"  -> {"tcp", "arpreq", "vsnap"}
+                [] OTHER          -> {GrpSel}
 
 \* ---- neighbourhood of a frame: one header field changed at a time
 Flip(a, j) == LET i == ((j - 1) \div 8) + 1
@@ -72,13 +84,14 @@ TagVars(x) ==
   THEN << [x EXCEPT !.vid = (@ + 1) % 4096], [x EXCEPT !.pcp = (@ + 1) % 8],
           [x EXCEPT !.tag = 0, !.vid = 0, !.pcp = 0] >>
   ELSE << Tag(x, 100, 0), Tag(x, 0, 5), Tag(x, 4095, 0) >>
+TpMax(x) == IF x.l4 = "icmp" THEN 256 ELSE 65536      \* ICMP type/code are bytes
 IpVars(x) ==
   IF IsIP(x)
   THEN << [x EXCEPT !.tos = (@ + 4) % 256],            \* another DSCP
           [x EXCEPT !.tos = IF @ % 4 = 3 THEN @ - 3 ELSE @ + 1],   \* only the ECN bits differ
           [x EXCEPT !.proto = IF @ = 6 THEN 17 ELSE 6, !.l4 = "tp"],
-          [x EXCEPT !.a = (@ + 1) % 65536], [x EXCEPT !.b = (@ + 1) % 65536],
-          [x EXCEPT !.a = 0], [x EXCEPT !.b = 65535],
+          [x EXCEPT !.a = (@ + 1) % TpMax(x)], [x EXCEPT !.b = (@ + 1) % TpMax(x)],
+          [x EXCEPT !.a = 0], [x EXCEPT !.b = TpMax(x) - 1],
           [x EXCEPT !.frag = IF @ = "no" THEN "first" ELSE "no"],
           [x EXCEPT !.frag = IF @ = "later" THEN "no" ELSE "later"],
           [x EXCEPT !.opts = IF @ = 0 THEN 1 ELSE 0] >>
@@ -90,9 +103,9 @@ ArpVars(x) ==
           [x EXCEPT !.op = (@ + 256) % 65536] >>       \* same low byte
        \o SipFlips(x) \o DipFlips(x)
   ELSE << >>
-NbSeq(x) == <<x>> \o L2Vars(x) \o TagVars(x) \o IpVars(x) \o ArpVars(x)
+NbSeq(x) == SelectSeq(<<x>> \o L2Vars(x) \o TagVars(x) \o IpVars(x) \o ArpVars(x), WellFormed)
 
-FrameSeqRows == NbSeq(Base) \o AllShapes
+FramesRows == [g \in GroupsRows |-> NbSeq(Shape(g)) \o AllShapes]
 
 \* ---- families of matches derived from a frame
 MkM(W, sb, db, v) == [wc |-> W, sbits |-> sb, dbits |-> db, v |-> v]
@@ -126,7 +139,8 @@ Family(fam, x) ==
                           \cup {MkM({}, 0, db, Extract(x)) : db \in 0..63}
                           \cup {MkM({}, sb, 63 - sb, Garble(Extract(x), sb, 63 - sb)) : sb \in 0..63}
     [] fam = "full64"  -> {MkM({}, sb, db, Extract(x)) : sb \in 0..63, db \in 0..63}
-CatalogRows == {<<1, m>> : m \in Family(FamName, Base)}
+AltRows == [g \in GroupsRows |-> Extract(Other(Shape(g)))]
+CatalogRows == [g \in GroupsRows |-> {<<1, m>> : m \in Family(FamName, Shape(g))}]
 PriosRows == {32768}
 
 \* ---- small tables: exact / wildcard entries, ties, priority extremes
@@ -145,35 +159,22 @@ TableCat ==
      ExactOf(NB),                                                     \* 9 literally exact (type 0x88b5)
      MkM({"dl_vlan_pcp"}, 0, 0, V0),                                  \* 10 TCP, all but the tag priority
      ExactOf(Shape("gre")) >>                                         \* 11 literally exact (IP proto 47)
-CatalogTbl(keys) == {<<k, TableCat[k]>> : k \in keys}
+GroupsTbl == {"tbl"}
+CatalogTbl(keys) == [g \in GroupsTbl |-> {<<k, TableCat[k]>> : k \in keys}]
 CatTblQuick == CatalogTbl({1, 2, 3, 5, 6, 7})
 CatTblFull  == CatalogTbl(1..11)
 FrameSeqTbl == << B, [B EXCEPT !.port = 2], UDP, ARP, [ARP EXCEPT !.dst = 3, !.port = 2], NB,
                   Shape("gre"), Tag(B, 100, 5), [B EXCEPT !.sip = Flip(@, 32), !.dst = 3] >>
+FramesTbl == [g \in GroupsTbl |-> FrameSeqTbl]
+AltTbl == [g \in GroupsTbl |-> Extract(Shape("varp"))]
 PriosQuick == {0, 65535}
 PriosFull  == {0, 1, 65535}
 PriosSim   == {0, 1, 2, 3, 32768, 65534, 65535}
+PriosTrace == 0..65535
 
 ----------------------------------------------------------------------------
-(* Sanity of the oracle, checked once per run.                               *)
-AllFrames == {FrameSeqRows[i] : i \in DOMAIN FrameSeqRows}
-                \cup {FrameSeqTbl[i] : i \in DOMAIN FrameSeqTbl}
-ASSUME \A x \in AllFrames : WellFormed(x)
-\* the exact match built from a frame matches it; so does the all-wildcard match
-ASSUME \A x \in AllFrames : Matches(ExactOf(x), x) /\ Matches(AllWild, x)
-\* arithmetic and bitwise prefix comparison agree
-ASSUME \A n \in 0..32 : \A j \in 1..32 :
-         /\ PrefixEq(SIP, Flip(SIP, j), n) = PrefixEqBits(SIP, Flip(SIP, j), n)
-         /\ PrefixEq(SIP, Flip(SIP, j), n) = (j > n)
-         /\ PrefixEq(DIP, SIP, n) = PrefixEqBits(DIP, SIP, n)
-\* shapes that must differ in the extracted tuple do, shapes that must not, do not
-ASSUME Extract(Shape("tcpecn")) = Extract(B) /\ Extract(Shape("tcpopt")) = Extract(B)
-ASSUME Extract(Shape("frag1")).tp_src = 0 /\ Extract(Shape("frag2")).tp_dst = 0
-ASSUME Extract(Shape("arphi")).nw_proto = 2 /\ Extract(Shape("arphi")).nw_src = SIP
-ASSUME Extract(Shape("snapip")).dl_type = 2048 /\ Extract(Shape("snapx")).dl_type = 1535
-ASSUME Extract(Shape("vllc")).dl_type = 1535 /\ Extract(Shape("vsnap")).dl_type = 2054
-ASSUME Extract(Shape("rarp")).nw_src = Zero4 /\ Extract(Shape("qinq")).dl_type = 33024
+(* Sanity checks of the oracle (ASSUMEs): see MCOracle.tla, run once.         *)
 \* the frame catalog of this run, for the harness
-ASSUME PrintT(<<"FR", ToJson(FrameSeqRows)>>)
-ASSUME PrintT(<<"FT", ToJson(FrameSeqTbl)>>)
+ASSUME PrintT(<<"FR", ToJson(FramesRows)>>)
+ASSUME PrintT(<<"FT", ToJson(FramesTbl)>>)
 =============================================================================
